@@ -8,15 +8,15 @@ package main
 // unchanged apart from the documented additions.
 
 import (
-	"net/url"
-	"bytes"
 	"bufio"
+	"bytes"
 	"crypto/sha256"
 	"fmt"
 	"io"
 	"net"
 	"net/http"
 	"net/http/httptest"
+	"net/url"
 	"strings"
 	"sync"
 	"time"
